@@ -12,6 +12,8 @@
                            by a rule) *)
 From ClapModel Require Import Base.Bytes Base.Machine Base.Utf8 Lex.OsStrExtModel.
 From ClapModel Require Import Parse.Cmd Parse.Build Parse.Valid Parse.Matcher Parse.Errors Parse.Validator Parse.Parser.
+From ClapModel Require Value.ValueBase Value.IntFactory Value.BoolParse Value.PossibleValues.
+From ClapModel Require ParseProofs.VpKinds.
 From Coq Require Import ZArith Lia Bool List.
 From RecordUpdate Require Import RecordSet.
 Import RecordSetNotations.
@@ -202,7 +204,40 @@ Definition in_lang (v : vparser) (s : bytes) : Prop :=
   | VPBool => s = s_true \/ s = s_false
   | VPCount => utf8_valid s = true /\ exists z, i64_text s z /\ (0 <= z <= 255)%Z
   | VPI64 lo hi => utf8_valid s = true /\ exists z, i64_text s z /\ (lo <= z <= hi)%Z
+  (* the parsers C04 models in depth: the language is "the C04 model answers [VOk]"; what that
+     means per parser is C04's ([BoolParseProofs.boolish_parse_spec], [falsey_parse_spec],
+     [nonempty_parse_spec], [PossibleValuesProofs.possible_parse_spec], [IntFactoryProofs.ranged_parse_ok]) *)
+  | VPBoolish => exists b, ClapModel.Value.BoolParse.boolish_parse s = ClapModel.Value.ValueBase.VOk b
+  | VPFalsey => exists b, ClapModel.Value.BoolParse.falsey_parse s = ClapModel.Value.ValueBase.VOk b
+  | VPNonEmpty => exists s', ClapModel.Value.BoolParse.nonempty_parse s = ClapModel.Value.ValueBase.VOk s'
+  | VPPossible ic pvs =>
+      exists s', ClapModel.Value.PossibleValues.possible_parse clap_unicode ic (map fst pvs) s
+                 = ClapModel.Value.ValueBase.VOk s'
+  | VPRanged t lo hi =>
+      exists z, ClapModel.Value.IntFactory.ranged_parse (ity_pkind t)
+                  (ClapModel.Value.ValueBase.Included lo, ClapModel.Value.ValueBase.Included hi) t s
+                = ClapModel.Value.ValueBase.VOk z
   end.
+
+Lemma vres_kind_none {A} (r : ClapModel.Value.ValueBase.vresult A) :
+  vres_kind r = None <-> exists a, r = ClapModel.Value.ValueBase.VOk a.
+Proof.
+  destruct r as [a|k]; cbn [vres_kind].
+  - split; [intros _; exists a; reflexivity|reflexivity].
+  - split; [discriminate|intros [a H]; discriminate H].
+Qed.
+
+Lemma vres_kind_some {A} (r : ClapModel.Value.ValueBase.vresult A) k :
+  vres_kind r = Some k -> exists k', r = ClapModel.Value.ValueBase.VErr k' /\ k = ek_of k'.
+Proof.
+  destruct r as [a|k']; cbn [vres_kind]; [discriminate|]. intros H; injection H as <-. exists k'. split; reflexivity.
+Qed.
+
+Lemma ek_of_kinds k' : In (ek_of k') [EInvalidUtf8; EInvalidValue; EValueValidation].
+Proof. destruct k'; cbn; tauto. Qed.
+
+Lemma ek_of_utf8 k' : ek_of k' = EInvalidUtf8 -> k' = ClapModel.Value.ValueBase.InvalidUtf8.
+Proof. destruct k'; cbn [ek_of]; [reflexivity|discriminate|discriminate]. Qed.
 
 Lemma ranged_spec lo hi s :
   (if negb (utf8_valid s) then Some EInvalidUtf8
@@ -228,7 +263,7 @@ Qed.
     no rejection without cause *)
 Theorem vp_parse_accepts_iff v s : vp_parse v s = None <-> in_lang v s.
 Proof.
-  destruct v as [| | | |lo hi]; cbn [vp_parse in_lang].
+  destruct v as [| | | |lo hi| | | |ic pvs|t lo hi]; cbn [vp_parse in_lang].
   - destruct (utf8_valid s); split; try reflexivity; try discriminate; intros H; exact H.
   - tauto.
   - destruct (beq s s_true) eqn:E1; [|destruct (beq s s_false) eqn:E2]; cbn [orb].
@@ -237,6 +272,23 @@ Proof.
     + apply beq_neq in E1. apply beq_neq in E2. split; [discriminate|tauto].
   - apply (ranged_spec 0 255).
   - apply ranged_spec.
+  - apply vres_kind_none.
+  - apply vres_kind_none.
+  - apply vres_kind_none.
+  - apply vres_kind_none.
+  - apply vres_kind_none.
+Qed.
+
+(** the C04 parsers: one of the three value-error kinds, [InvalidUtf8] only for ill-formed input (VpKinds.v:
+    from the definitions of the models; nothing about the regenerated tables is used) *)
+Lemma vp_parse_reject_value v s k :
+  match v with VPBoolish | VPFalsey | VPNonEmpty | VPPossible _ _ | VPRanged _ _ _ => True | _ => False end ->
+  vp_parse v s = Some k ->
+  In k [EInvalidUtf8; EInvalidValue; EValueValidation] /\ (k = EInvalidUtf8 -> utf8_valid s = false).
+Proof.
+  intros _ H. split.
+  - destruct (ClapModel.ParseProofs.VpKinds.vp_parse_value_kind v s k H) as [->|[->| ->]]; cbn; tauto.
+  - intros ->. exact (ClapModel.ParseProofs.VpKinds.vp_parse_utf8_kind v s H).
 Qed.
 
 Theorem vp_parse_reject_sound v s k :
@@ -244,14 +296,17 @@ Theorem vp_parse_reject_sound v s k :
   ~ in_lang v s /\ In k [EInvalidUtf8; EInvalidValue; EValueValidation] /\
   (k = EInvalidUtf8 -> utf8_valid s = false).
 Proof.
-  intros H. split; [|split].
+  intros H. pose proof (fun Hv => vp_parse_reject_value v s k Hv H) as HV. split; [|split].
   - intros Hl. apply vp_parse_accepts_iff in Hl. congruence.
-  - destruct v; cbn [vp_parse] in H;
+  - destruct v as [| | | |lo hi| | | |ic pvs|t lo hi];
+      try (exact (proj1 (HV I))); clear HV; cbn [vp_parse] in H;
       repeat match type of H with
              | (if ?x then _ else _) = _ => destruct x
              | match ?x with _ => _ end = _ => destruct x
              end; try discriminate H; injection H as <-; cbn; tauto.
-  - intros ->. destruct v; cbn [vp_parse] in H; destruct (utf8_valid s); try reflexivity; cbn [negb] in H;
+  - destruct v as [| | | |lo hi| | | |ic pvs|t lo hi];
+      try (exact (proj2 (HV I))); clear HV;
+      intros ->; cbn [vp_parse] in H; destruct (utf8_valid s); try reflexivity; cbn [negb] in H;
       repeat match type of H with
              | (if ?x then _ else _) = _ => destruct x
              | match ?x with _ => _ end = _ => destruct x
